@@ -94,8 +94,8 @@ fn mutate(o1: &mut Obs, o2: &mut Obs, expanded: bool) {
     }
 }
 
-/// measurement calibration that uses its formal target name outside a CAPTURE target or the
-/// LOAD-MEMORY pragma text
+/// measurement calibration that uses its formal target name outside a CAPTURE target or the whole
+/// LOAD-MEMORY pragma text (Coq: Known_measure_target_uses)
 fn measure_target_uses_class(c: &MeasureCalibrationDefinition) -> bool {
     let Some(f) = c.identifier.target.as_ref() else { return false };
     let in_expr = |e: &quil_rs::expression::Expression| e.to_quil_or_debug().contains(&format!("{f}["));
@@ -111,6 +111,9 @@ fn measure_target_uses_class(c: &MeasureCalibrationDefinition) -> bool {
             }
             Instruction::Load(l) => &l.destination.name == f || &l.source == f || &l.offset.name == f,
             Instruction::Measurement(m) => m.target.as_ref().map(|t| &t.name == f).unwrap_or(false),
+            Instruction::Pragma(p) => {
+                p.name == "LOAD-MEMORY" && p.data.as_ref().map(|d| d.starts_with(&format!("{f}[")) && d.ends_with(']')).unwrap_or(false)
+            }
             _ => false,
         }
     })
